@@ -4,7 +4,7 @@
    [bind q s x] is DNA.use_spec (None = ValueError) returning the DNA with the specification node bound to every
    node; [aligned q s b] says every node of b is bound to the decision point of its own position. *)
 From PG Require Import Common.Tactics Model.Geno Model.GenoViews Proofs.GenoBasics Proofs.GenoValid Proofs.GenoNext
-  Proofs.GenoConcrete Proofs.GenoViewsProofs Proofs.GenoExamples.
+  Proofs.GenoConcrete Proofs.GenoViewsProofs Proofs.GenoDict Proofs.GenoExamples.
 
 (* flat numbers: from_numbers (to_numbers d) gives the DNA back, bound and aligned *)
 Theorem C12_numbers_roundtrip : forall q s d, wf s = true -> valid s d = true ->
@@ -72,3 +72,26 @@ Theorem C12_views_of_aligned : forall q s d b, wf s = true -> valid s d = true -
   aligned q s b -> from_numbers q s (to_numbers (strip b)) = Some b.
 Proof. exact rebuilt_is_same. Qed.
 Print Assumptions C12_views_of_aligned.
+
+(* dictionary views.  Full statement (DESIGN.md): for all 3 key types x {value, choice, literal, choice_and_literal}
+   x 3 multi-choice key modes, under view_ok, from_dict (to_dict d) = d.
+   Proved here: key_type = 'id', multi_choice_key = 'subchoice', every value type except 'dna', with
+   use_ints_as_literals = (value_type == 'literal'); view_ok = the ids of the decision points are pairwise different
+   and, for the literal view, the literal values of every choice are pairwise different as Python values.
+   MISSING (decided by the correspondence and the oracle only): key types 'name_or_id' (a list stored under a name is
+   consumed item by item) and 'dna_spec', the 'parent' / 'both' multi-choice key modes, include_inactive_decisions,
+   value_type = 'dna'. *)
+Theorem C12_dict_roundtrip_partial : forall q s sd vt b, wf s = true -> valid s sd = true -> vt <> VT_dna ->
+  ids_unique s -> (vt = VT_literal -> Forall lits_distinct (all_lits s)) ->
+  bind q s (normalize sd) = Some b ->
+  from_dict (ial_of vt) q s (to_dict (decision_points s) KT_id vt MC_subchoice false b) = Some b.
+Proof. exact dict_roundtrip_id. Qed.
+Print Assumptions C12_dict_roundtrip_partial.
+
+(* what to_dict lists: exactly the active decisions of the valid decision, in order, each under the key of the
+   decision point at its own address (so no decision is reported under another decision point's key) *)
+Theorem C12_to_dict_lists_active_decisions : forall q s sd vt b, wf s = true -> valid s sd = true -> vt <> VT_dna ->
+  bind q s (normalize sd) = Some b ->
+  to_dict (decision_points s) KT_id vt MC_subchoice false b = puts (decision_points s) KT_id vt (acts s [] sd) [].
+Proof. exact to_dict_acts. Qed.
+Print Assumptions C12_to_dict_lists_active_decisions.
